@@ -120,6 +120,18 @@ func (s *Stats) Merge(o *Stats) {
 
 func (s *Stats) Fail(d map[string]interface{}) { s.Disagreements = append(s.Disagreements, d) }
 
+// Obs is an observation taken inside a handler at a verifPoint.
+type Obs struct {
+	Point string
+	O     raft.VObs
+}
+
+// CrashState is the restart digest (canonical JSON value, or "fail") of a directory copy taken at a crash point.
+type CrashState struct {
+	Point   string
+	Restart interface{}
+}
+
 type crashCopy struct {
 	point string
 	dir   string
@@ -140,6 +152,8 @@ type World struct {
 	Trail  []Op
 	task   uint64
 	copies []crashCopy
+	obs    []Obs
+	crashStates []CrashState
 	ncopy  int
 	mon    *Monitor
 	Quiet  bool // do not generate ops; used by clustersim
@@ -170,6 +184,20 @@ func InstallPointFn() {
 			return
 		}
 		w := v.(*World)
+		if name == "appendEntry" || name == "commitLog" {
+			if n := w.Node; n != nil && len(args) >= 2 {
+				o := n.Observe()
+				if name == "appendEntry" {
+					o.Entry = raft.VerifEntry(args[1])
+				} else if x, ok := args[1].(uint64); ok {
+					o.Arg = x
+				}
+				w.obs = append(w.obs, Obs{name, o})
+			}
+			if name == "appendEntry" {
+				return
+			}
+		}
 		w.ncopy++
 		dst := filepath.Join(w.Base, fmt.Sprintf("crash%d", w.ncopy))
 		if err := harness.CopyDir(dir, dst); err == nil {
@@ -305,6 +333,7 @@ func (w *World) Step(op Op) bool {
 	}
 	pre := w.Node.Digest()
 	w.copies = nil
+	w.obs = nil
 	w.apply(op)
 	w.St.Steps++
 
@@ -315,8 +344,11 @@ func (w *World) Step(op Op) bool {
 	} else {
 		post = w.Node.Digest()
 		crash := []interface{}{}
+		w.crashStates = nil
 		for _, c := range w.copies {
-			crash = append(crash, map[string]interface{}{"point": c.point, "restart": w.restartDigest(c.dir)})
+			rd := w.restartDigest(c.dir)
+			crash = append(crash, map[string]interface{}{"point": c.point, "restart": rd})
+			w.crashStates = append(w.crashStates, CrashState{c.point, rd})
 			w.St.Crash++
 		}
 		real = map[string]interface{}{"post": harness.ToCanon(post), "crash": crash}
@@ -330,36 +362,45 @@ func (w *World) Step(op Op) bool {
 	if w.Node.Panic == "" {
 		rollAt = post.Log.Segs
 	}
-	ans, err := w.D.Ask(map[string]interface{}{"engine": "node", "what": "step", "id": w.St.Steps,
-		"pre": pre, "op": op.model(), "rollAt": rollAt})
-	if err != nil {
-		w.record("driver", pre, real, fmt.Sprint(err, ans), op, "driver error", nil)
-		return false
-	}
-	outs, _ := ans["outcomes"].([]interface{})
 	matched := false
 	var models []interface{}
-	for _, o := range outs {
-		s, _ := o.(string)
-		m, err := harness.Parse([]byte(s))
+	for level := 1; level <= 3 && !matched; level++ {
+		ans, err := w.D.Ask(map[string]interface{}{"engine": "node", "what": "step", "id": w.St.Steps,
+			"pre": pre, "op": op.model(), "rollAt": rollAt, "level": level})
 		if err != nil {
-			continue
+			w.record("driver", pre, real, fmt.Sprint(err, ans), op, "driver error", nil)
+			return false
 		}
-		mm, _ := m.(map[string]interface{})
-		if pc, ok := mm["panic"]; ok {
-			// compare classes only: model site is "<class>.<site>"
-			cls, _ := pc.(string)
-			for i := 0; i < len(cls); i++ {
-				if cls[i] == '.' {
-					cls = cls[:i]
-					break
-				}
+		outs, _ := ans["outcomes"].([]interface{})
+		models = nil
+		for _, o := range outs {
+			s, _ := o.(string)
+			m, err := harness.Parse([]byte(s))
+			if err != nil {
+				continue
 			}
-			mm = map[string]interface{}{"panic": cls}
+			mm, _ := m.(map[string]interface{})
+			if pc, ok := mm["panic"]; ok {
+				// compare classes only: model site is "<class>.<site>"
+				cls, _ := pc.(string)
+				for i := 0; i < len(cls); i++ {
+					if cls[i] == '.' {
+						cls = cls[:i]
+						break
+					}
+				}
+				mm = map[string]interface{}{"panic": cls}
+			}
+			models = append(models, mm)
+			if harness.Equal(harness.Canon(real), mm) {
+				matched = true
+			}
 		}
-		models = append(models, mm)
-		if harness.Equal(harness.Canon(real), mm) {
-			matched = true
+		if len(outs) <= 1 {
+			break // no iteration-order nondeterminism in this step
+		}
+		if level > 1 {
+			w.St.Hist[fmt.Sprintf("order-level-%d", level)]++
 		}
 	}
 	w.classify(pre, op, post, real)
